@@ -198,3 +198,12 @@ Lemma ob_dial_records_error_before_leaving_loop : dial_records_error_before_leav
 Proof. vm_compute. reflexivity. Qed.
 Lemma ob_dial_attempts_at_least_one : dial_attempts_at_least_one = true.
 Proof. vm_compute. reflexivity. Qed.
+(* --- relay of a rejected CONNECT (Reject.v) --- *)
+Lemma ob_skel_OnProxyConnectResponse_wrapper : skel_OnProxyConnectResponse_wrapper = exp_skel_OnProxyConnectResponse_wrapper.
+Proof. vm_compute. reflexivity. Qed.
+Lemma ob_skel_readAllWithin : skel_readAllWithin = exp_skel_readAllWithin.
+Proof. vm_compute. reflexivity. Qed.
+Lemma ob_reject_reads_body_only_when_length_positive : reject_reads_body_only_when_length_positive = true.
+Proof. vm_compute. reflexivity. Qed.
+Lemma ob_reject_body_read_is_bounded : reject_body_read_is_bounded = true.
+Proof. vm_compute. reflexivity. Qed.
